@@ -103,6 +103,8 @@ def C07(tier):
             bjob('jc.d1.w2.r4', src, ['t0', 't1', 't2'], 4, ['-DVN=3', '-DNDEC=1', '-DMODE=0'], timeout=5400, mem_gb=16),
             bjob('jc.d2.w1.r4', src, ['t0', 't1', 't2'], 4, ['-DVN=3', '-DNDEC=2', '-DMODE=1'], timeout=5400, mem_gb=16),
             bjob('jc.d1.w1.r4.all', src, ['t0', 't1'], 4, ['-DVN=2', '-DNDEC=1', '-DMODE=1'], preempt='all', timeout=5400),
+            bjob('jc.d2.w2.r4', src, ['t0', 't1', 't2', 't3'], 4, ['-DVN=4', '-DNDEC=2', '-DMODE=0'], timeout=5400, mem_gb=16),
+            bjob('jc.d2.w1.r5.all', src, ['t0', 't1', 't2'], 5, ['-DVN=3', '-DNDEC=2', '-DMODE=1'], preempt='all', timeout=5400, mem_gb=16),
         ]
     return dict(jobs=jobs, assumptions=MODEL_ASSUMPTIONS,
                 functions=['myth_join_counter_init_body', 'calc_bits', 'myth_join_counter_wait_body', 'myth_join_counter_dec_body', 'myth_wake_many_from_queue', 'myth_block_on_queue'])
@@ -115,7 +117,8 @@ def C08(tier):
     ]
     if tier == 'thorough':
         jobs += [bjob('uncond.rv2.r5.all', src, ['t0', 't1'], 5, ['-DRV=2'], preempt='all', timeout=5400, mem_gb=16),
-                 bjob('uncond.rv3.r6', src, ['t0', 't1'], 6, ['-DRV=3'], timeout=5400, mem_gb=16)]
+                 bjob('uncond.rv3.r6', src, ['t0', 't1'], 6, ['-DRV=3'], timeout=5400, mem_gb=16),
+                 bjob('uncond.rv3.r7.all', src, ['t0', 't1'], 7, ['-DRV=3'], preempt='all', timeout=5400, mem_gb=16)]
     return dict(jobs=jobs, assumptions=MODEL_ASSUMPTIONS + ['protocol assumption from the documentation: the waiter announces itself atomically before calling wait and the signaller signals only after seeing the announcement'],
                 functions=['myth_uncond_wait_body', 'myth_uncond_wait_cb', 'myth_uncond_signal_body'])
 
@@ -143,7 +146,9 @@ def C14(tier):
         bjob('once.c3.r3', src, ['t0', 't1', 't2'], 3, ['-DVN=3', '-DMODE=0']),
     ]
     if tier == 'thorough':
-        jobs += [bjob('once.c3.r5.all', src, ['t0', 't1', 't2'], 5, ['-DVN=3', '-DMODE=1'], preempt='all', timeout=3600)]
+        jobs += [bjob('once.c3.r5.all', src, ['t0', 't1', 't2'], 5, ['-DVN=3', '-DMODE=1'], preempt='all', timeout=3600),
+                 bjob('once.c4.r4.all', src, ['t0', 't1', 't2', 't3'], 4, ['-DVN=4', '-DMODE=0'], preempt='all', timeout=3600, mem_gb=16),
+                 bjob('once.c3.r7.all', src, ['t0', 't1', 't2'], 7, ['-DVN=3', '-DMODE=1'], preempt='all', timeout=3600, mem_gb=16)]
     return dict(jobs=jobs, assumptions=MODEL_ASSUMPTIONS + ['myth_yield() inside myth_once_wait_until is modelled as a plain scheduling yield'],
                 functions=['myth_once_body', 'myth_once_try_set', 'myth_once_wait_until'])
 
@@ -158,10 +163,10 @@ def ajob(name, src, defs=(), unwind=6, timeout=1200, mem_gb=10, replace_calls=()
 
 def C20(tier):
     src = 'harness/C20_time.c'; rc = ['myth_yield_ex_body:stub_yield_ex']
-    K = 4 if tier == 'quick' else 6
+    K = 4 if tier == 'quick' else 10
     names = ['timespec_add_gt', 'nanosleep', 'sleep', 'timedlock', 'timedjoin', 'hr_gettime', 'usleep_kernel']
     jobs = [ajob('time.%s.k%d' % (names[i], K), src, ['-DSCEN=%d' % i, '-DKMAX=%d' % K], unwind=K + 3,
-                 replace_calls=rc + (['myth_nanosleep_body:stub_nanosleep'] if i == 6 else []), timeout=600, sat=('cvc5-int' if i == 6 else None),
+                 replace_calls=rc + (['myth_nanosleep_body:stub_nanosleep'] if i == 6 else []), timeout=600, sat=('cvc5-int' if i == 6 else None), extra=['--object-bits', '10'],
                  bounds=dict(clock_readings_until_forced_past_deadline=K, timespec='all values (tv_sec < 2^40 for clock readings and requests, < 2^61 in timespec_add)'))
             for i in range(7)]
     return dict(jobs=jobs, assumptions=A_ASSUME + ['clock_gettime returns an arbitrary non-decreasing sequence of valid timespecs and passes the deadline at the K-th reading at the latest',
@@ -379,7 +384,7 @@ def C18(tier):
     for prog, order, nch in progs:
         for pat in range(2 ** nch):
             j = ajob('dr.e2e.p%d.o%d.w%s' % (prog, order, format(pat, '0%db' % nch)), 'harness/C18_e2e.c', ['-DPROG=%d' % prog, '-DORDER=%d' % order, '-DNW=2', '-DWPAT=%d' % pat, '-DNNODES=12'],
-                     unwind=6, extra=['--unwindset', 'main.0:13,main.1:4'], timeout=900, replace_calls=rce,
+                     unwind=6, extra=['--unwindset', 'main.0:13,main.1:4,nd_worker.0:10'], timeout=900, replace_calls=rce,
                      bounds=dict(program=['root{create A{}; wait}', None, 'root{create A{}; wait; create B{}; wait}'][prog], call_order=['child first', 'parent continues while the child runs on another worker'][order],
                                  workers='2 workers; worker of every task segment = binary digit of %s (all %d assignments are run)' % (format(pat, '0%db' % nch), 2 ** nch),
                                  clock='arbitrary non-decreasing readings (increments < 2^40)', options='collapse_max_count, uncollapse_min, collapse_max symbolic; node_count_target = 0'))
